@@ -182,6 +182,87 @@ Theorem C11_src_example :
 Proof. exact (conj GenDemo.hypotheses_hold (conj GenDemo.observers_run (conj GenDemo.logged_equals_plain GenDemo.mutants_refused))). Qed.
 Print Assumptions C11_src_example.
 
+(* ====================================================================== the observers' methods, read from the source
+   (extension ext5-c11-observers; Api/ObserverSrc*.v, coq/gen/GenC11Obs.v regenerated by harness/translate/c11_observers.py).
+   [gen_observer_ops o] = the abstract operations the method [o] of the output manager performs, every statement of the method
+   and of what it reaches classified from the source.  The hypothesis "every observer script is [read_only]" becomes
+   "every observer script consists of events of the kinds of those operations" ([realises]); [read_only] itself is PROVED, by
+   [vm_compute] on the regenerated lists ([ops_allowed]). *)
+From Leaspy Require Import Api.ObserverSrc Api.ObserverSrcProofs Api.ObserverSrcTie.
+From LeaspyGen Require Import GenC11Obs.
+
+(** Every script made of events of the kinds read from the source (reads of the model's State, [State.save], clones and
+    anything on the clones; an own-register write is no event) is [read_only]. *)
+Theorem C11_src_observers_read_only_from_source :
+  forall (V : Type) (oi : oname -> nat -> list (ev V)),
+    (forall o i, realises V (gen_observer_ops o) (oi o i) = true) -> forall o i, read_only V (oi o i) = true.
+Proof. exact gen_observers_read_only. Qed.
+Print Assumptions C11_src_observers_read_only_from_source.
+
+(** [C11_src_logging_transparent] with its [read_only] hypothesis discharged from the source. *)
+Theorem C11_src_logging_transparent_observers_from_source :
+  forall (V : Type) sread swrite sclone tracked tape seed_pos anc indep simOn,
+    state_interface V sread swrite sclone anc indep simOn ->
+    forall (seed : nat) (interp : aname -> nat -> nat -> list (ev V)) (oi oi' : oname -> nat -> list (ev V))
+           (base : nat) (e e' : env) (c c1 : cfg V),
+      e_aflag e FSeedSet = true -> same_algorithm e e' -> e_lflag e' LHasManager = false ->
+      wf_cfg V simOn c -> (forall o i, realises V (gen_observer_ops o) (oi o i) = true) ->
+      run_prog V sread swrite sclone tracked tape seed_pos seed interp oi base e fit_prog c = Some c1 ->
+      exists c2, run_prog V sread swrite sclone tracked tape seed_pos seed interp oi' base e' fit_prog c = Some c2
+                 /\ same_results V sread c1 c2.
+Proof. exact gen_logging_transparent_observers_from_source. Qed.
+Print Assumptions C11_src_logging_transparent_observers_from_source.
+
+(** No hypothesis on the observers left: for EVERY reading of the names (which variables a name denotes at each call, which
+    variables a model-level reader reads, what is assigned on a clone) the scripts [src_observers] built from the generated
+    operation lists are transparent. *)
+Theorem C11_src_logging_transparent_canonical_observers :
+  forall (V : Type) sread swrite sclone tracked tape seed_pos anc indep simOn,
+    state_interface V sread swrite sclone anc indep simOn ->
+    forall vars mv w (seed : nat) (interp : aname -> nat -> nat -> list (ev V)) (oi' : oname -> nat -> list (ev V))
+           (base : nat) (e e' : env) (c c1 : cfg V),
+      e_aflag e FSeedSet = true -> same_algorithm e e' -> e_lflag e' LHasManager = false ->
+      wf_cfg V simOn c ->
+      run_prog V sread swrite sclone tracked tape seed_pos seed interp (src_observers V vars mv w) base e fit_prog c = Some c1 ->
+      exists c2, run_prog V sread swrite sclone tracked tape seed_pos seed interp oi' base e' fit_prog c = Some c2
+                 /\ same_results V sread c1 c2.
+Proof. exact gen_logging_transparent_canonical_observers. Qed.
+Print Assumptions C11_src_logging_transparent_canonical_observers.
+
+(** What one observer call read from the source leaves behind (C11_src_observer_frame without its [read_only] hypothesis). *)
+Theorem C11_src_observer_frame_from_source :
+  forall (V : Type) sread swrite sclone tracked tape seed_pos (o : oname) (s : list (ev V)) (c c' : cfg V),
+    realises V (gen_observer_ops o) s = true -> run_obs V sread swrite sclone tracked tape seed_pos s c = Some c' ->
+    cPos c' = cPos c /\ cCur c' = cCur c /\ cRegs c' = cRegs c /\ cLog c' = cLog c /\ length (cS c') = length (cS c).
+Proof. exact gen_observer_frame_from_source. Qed.
+Print Assumptions C11_src_observer_frame_from_source.
+
+(** The classification is not vacuous: every forbidden operation kind the event model can express (assignment on the model's
+    State, replacement of the model's State, draw, re-seeding) has a realisation that [read_only] rejects. *)
+Theorem C11_src_forbidden_observer_op_refuted :
+  forall (V : Type) (op : obs_op), op_allowed op = false -> op <> OWriteAlgo ->
+    exists e : ev V, ev_of_op V op e = true /\ read_only_ev V e = false.
+Proof. exact forbidden_op_not_read_only. Qed.
+Print Assumptions C11_src_forbidden_observer_op_refuted.
+
+(** Non-vacuity: a plot-patient-like list is allowed, its realisation reads the model's State, clones and assigns on the
+    clone; the three mutations (algorithm register, State assignment, draw) are refused; on [Memo] the scripts built from
+    the GENERATED lists contain events, and the logged run equals the plain one. *)
+Theorem C11_src_observer_ops_example :
+  (ops_allowed ObsDemo.plot_patient = true
+   /\ read_only nat (den nat ObsDemo.vars [2] (fun _ => Some 7) ObsDemo.plot_patient) = true)
+  /\ (ops_allowed ObsDemo.mut_algo = false /\ ops_allowed ObsDemo.mut_state = false /\ ops_allowed ObsDemo.mut_draw = false
+      /\ read_only nat (den nat ObsDemo.vars [2] (fun _ => Some 7) ObsDemo.mut_state) = false
+      /\ read_only nat (den nat ObsDemo.vars [2] (fun _ => Some 7) ObsDemo.mut_draw) = false)
+  /\ negb (Nat.eqb (length (flat_map (fun o => GenObsDemo.oi_src o 1) all_onames)) 0) = true
+  /\ (Memo.final_view (GenObsDemo.run GenDemo.e1) = Memo.final_view (GenObsDemo.run (logging_off GenDemo.e1))
+      /\ Memo.final_view (GenObsDemo.run GenDemo.e1) <> None).
+Proof.
+  exact (conj (conj ObsDemo.allowed ObsDemo.read_only_holds)
+              (conj ObsDemo.mutants_refused (conj GenObsDemo.observers_do_something GenObsDemo.logged_equals_plain))).
+Qed.
+Print Assumptions C11_src_observer_ops_example.
+
 (* ====================================================================== on the REAL State model (Compose/)
    The hypothesis [state_interface] of C11_logging_transparent is discharged: the store cell of Api/ApiModel.v is instantiated
    with the `_values` dictionary of a State object of State/StateModel.v ([abs]), its operations with State.__getitem__ /
